@@ -335,5 +335,4 @@ harnesses! {
     fn rr_conc_n4_deep() [unwind 10] { rr_concurrent(4) }
     fn ch_eq_n5_deep() [unwind 8] { ch_equal(5) }
     fn ch_eq_n6_deep() [unwind 8] { ch_equal(6) }
-    fn retry_ok_a7_deep() [unwind 9] { retry(RB, 7, false) }
 }
